@@ -354,7 +354,7 @@ func findProgReport(meta map[string]string, report *telemetry.Report) *telemetry
 	return &prog
 }
 
-// computeRandom returns a cryptographic random float64 in the range [0, 1],
+// computeRandom returns a cryptographic random float64 in the range (0, 1),
 // with 52 bits of precision.
 func computeRandom() float64 {
 	for {
@@ -373,6 +373,9 @@ func computeRandom() float64 {
 			continue
 		}
 		frac, _ := math.Frexp(x) // 52 bits of randomness
+		if frac == 0.5 {
+			continue // X would be 0, which the upload server refuses
+		}
 		return frac*2 - 1
 	}
 }
